@@ -267,6 +267,11 @@ def impl_line(line: str) -> str:
                 raise Infra("ServiceData accessors inconsistent")
             return hx(t.buffer) + " " + str(len(t))
         return pyres(f)
+    if op == "urlinit":
+        def f():
+            t = fb.UrlServiceData()
+            return hx(t._type) + ("" if t.pa_level_at_1_meter == -25 and t.uuid == bytes([0xAA, 0xFE]) else " accessors-disagree")
+        return pyres(f)
     if op == "urlpa":
         def f():
             t = fb.UrlServiceData()
